@@ -1,14 +1,20 @@
 """C01 - circuit breaker.  spec/Breaker.tla (abstract breaker: trailing window of recorded outcomes,
 explicit coin, table of benign outcomes), spec/BreakerGen.tla (behaviour generator) -> replay on the
 real lib/breaker (black-box, virtual clock, forced coin) and on the built-in integrations (HTTP
-middleware, sqlx, redis over miniredis, gRPC codes / client / server interceptors)."""
+middleware, api/httpc client, sqlx, redis over miniredis, gRPC codes / client / server interceptors).
+Call kinds carry the caller's acceptable-predicate as a set of accepted results (so "success iff the
+predicate says so" is checked for predicates that reject nil / accept everything / accept one error),
+the gRPC rows carry the error VALUE (status / wrapped / plain / context / foreign GRPCStatus type)."""
 import json, os, re, subprocess
+from concurrent.futures import ThreadPoolExecutor
 from vlib import core
 
-ENGINE = {"internal/verifc01/engine.go": "c01/engine/engine.go"}
+ENGINE = {"internal/verifc01/engine.go": "c01/engine/engine.go",
+          "internal/verifc01/grpcerr/grpcerr.go": "c01/engine/grpcerr/grpcerr.go"}
 DRIVERS = {
     "core":   ("./lib/breaker", "lib/breaker/zz_verif_c01_test.go", "c01/core_test.go", "^TestVerifC01Core$"),
     "http":   ("./api/handler", "api/handler/zz_verif_c01_test.go", "c01/http_test.go", "^TestVerifC01HTTP$"),
+    "httpc":  ("./api/httpc", "api/httpc/zz_verif_c01_test.go", "c01/httpc_test.go", "^TestVerifC01Httpc$"),
     "sql":    ("./lib/store/sqlx", "lib/store/sqlx/zz_verif_c01_test.go", "c01/sqlx_test.go", "^TestVerifC01SQL$"),
     "redis":  ("./lib/store/redis", "lib/store/redis/zz_verif_c01_test.go", "c01/redis_test.go", "^TestVerifC01Redis$"),
     "codes":  ("./rpc/internal/codes", "rpc/internal/codes/zz_verif_c01_test.go", "c01/codes_test.go", "^TestVerifC01Codes$"),
@@ -20,7 +26,7 @@ DRIVERS = {
 # which driver serves which api of the integration table
 SQL_OPS = ("sql_exec", "sql_query", "sql_prepare", "sql_transact")
 SQL_FLAVOURS = ("", "@mysql", "@custom")   # plain | withMySQLAcceptable (as NewMySQL) | user accept option accepting nothing extra
-API_DRIVER = {"http": "http", "redis": "redis", "grpc_codes": "codes", "grpc_client": "client", "grpc_unary": "server", "grpc_stream": "server"}
+API_DRIVER = {"http": "http", "httpc": "httpc", "redis": "redis", "grpc_codes": "codes", "grpc_client": "client", "grpc_unary": "server", "grpc_stream": "server"}
 API_DRIVER.update({op + fl: "sql" for op in SQL_OPS for fl in SQL_FLAVOURS})
 
 META = dict(
@@ -28,14 +34,18 @@ META = dict(
          "recorded outcomes with the resolution of the 40 x 250 ms buckets, reject only when (total-5) > 1.5 x successes "
          "and the coin agrees, rejected calls run nothing and record nothing, admitted calls record exactly one outcome, "
          "table of benign outcomes of the integrations) and is model-checked with TLC; spec/BreakerGen.tla enumerates "
-         "every behaviour of bursts of calls (all Do*/Allow variants x ok/acceptable/unacceptable/panic, adversarial or "
-         "lenient coin) interleaved with clock advances around the ageing boundaries, over registry and private "
+         "every behaviour of bursts of calls (all Do*/Allow variants x nil/error A/error B/panic x every acceptable-"
+         "predicate over those results - all 8 subsets, e.g. one that rejects nil, one that accepts everything, one that "
+         "accepts a single error - adversarial or lenient coin) interleaved with clock advances around the ageing boundaries, over registry and private "
          "breakers incl. NoBreakerFor and parallel bursts, plus seeded long simulations; every call is executed on the "
          "real breaker through its public API and compared with the prediction: protected function ran, fallback ran "
          "and its argument, returned error / re-raised panic, whether the coin was consulted and the exact drop "
          "probability (which reveals successes/total black-box). The same engine replays the integration table "
-         "through api/handler.BreakerHandler, sqlx.Conn, redis.Redis over miniredis, rpc/internal/codes and the "
-         "client/server breaker interceptors.",
+         "through api/handler.BreakerHandler, api/httpc (Service.Do against a loopback server answering 2xx-5xx and "
+         "against a refused connection), sqlx.Conn, redis.Redis over miniredis, rpc/internal/codes and the "
+         "client/server breaker interceptors; the gRPC rows range over error values (nil, status errors of all codes, "
+         "%w-wrapped status errors, foreign error types with GRPCStatus(), a plain Go error, context.Canceled / "
+         "DeadlineExceeded as plain errors), classified by the code grpc's status.Code assigns to the value.",
     note="Trusted: TLC, Go runtime, the two verif hooks (timex clock, mathx coin), miniredis, httptest. The window is "
          "decided with bucket resolution (an outcome is in the trailing window while its 250 ms bucket, aligned to the "
          "breaker's creation, is among the last 40), so 'trailing 10 s' means 9.75-10 s depending on phase. 'Cut off "
@@ -47,6 +57,12 @@ META = dict(
          "spec/BreakerTrace.tla, which places the unlogged window read and outcome mark of every call; the schedules "
          "are those the Go scheduler produced, not all. The ring mechanism of the rolling window (offset/lastTime) is "
          "not modelled here (RollingWindowImpl belongs to C09). "
+         "gRPC rows: the code of an error value is the one status.Code of the grpc version in go.mod assigns (a plain or "
+         "context error: Unknown, benign; a %w-wrapped status error: Unknown before grpc 1.55, the wrapped code after - "
+         "constant GrpcUnwraps; the drivers stop with a harness error if the linked library disagrees with the table). "
+         "api/httpc: 1xx interim responses never reach the caller and are not generated; 'refused' is a dial error "
+         "injected in the client's transport dialer. A vacuity guard (only when nothing disagreed) requires that all 64 "
+         "(predicate, result) kinds and every integration row were executed. "
          "A promise that is neither accepted nor rejected, scan errors of sqlx and the MySQL duplicate-"
          "entry error (benign only by option, not listed by the statement: either classification is accepted, so it "
          "is not generated) are outside the statement. The sqlx table runs every operation x outcome on three "
@@ -69,6 +85,9 @@ REAL = dict(Size=40, Q=4, K2=3, Prot=5, Kinds="CoreKinds")
 GRPC = ["OK", "Canceled", "Unknown", "InvalidArgument", "DeadlineExceeded", "NotFound", "AlreadyExists", "PermissionDenied",
         "ResourceExhausted", "FailedPrecondition", "Aborted", "OutOfRange", "Unimplemented", "Internal", "Unavailable",
         "DataLoss", "Unauthenticated"]
+# error kinds of the gRPC rows (spec/Breaker.tla GrpcCode: n = 100 * kind + code)
+GRPC_STATUS, GRPC_WRAPPED, GRPC_PLAIN, GRPC_CTX_CANCELED, GRPC_CTX_DEADLINE, GRPC_FOREIGN = range(6)
+HTTPC_QUICK = [200, 201, 204, 301, 400, 404, 429, 499, 500, 501, 502, 503, 504, 599]
 HTTP_QUICK = [100, 101, 199, 200, 201, 204, 301, 304, 400, 401, 403, 404, 418, 429, 451, 499, 500, 501, 502, 503, 504, 505, 511, 599]
 SQL_OUTCOMES = ["nil", "norows", "txdone", "canceled", "deadline", "other"]
 REDIS_OUTCOMES = ["nil", "rednil", "canceled", "other", "down"]
@@ -78,12 +97,37 @@ def kd(api, oc, n=0):
     return 'Kd("%s","%s",%d)' % (api, oc, n)
 
 
+def grpc_unwraps():
+    """Does status.Code of the grpc version /repo is built with look through %w wrapping (grpc >= 1.55)?  A fact of the
+    library, bound to the spec's constant GrpcUnwraps; the gRPC drivers re-check the spec's table against the linked library."""
+    try:
+        m = re.search(r"^\s*google\.golang\.org/grpc\s+v(\d+)\.(\d+)", open(os.path.join(core.REPO, "go.mod")).read(), re.M)
+    except OSError as e:
+        raise core.Infra("cannot read go.mod of the tree under test: %s" % e)
+    if not m:
+        raise core.Infra("no google.golang.org/grpc requirement in go.mod of the tree under test")
+    return (int(m.group(1)), int(m.group(2))) >= (1, 55)
+
+
+def grpc_rows():
+    """(label, n) of every error value of the gRPC rows: nil and the 16 status errors, each status error wrapped with %w,
+    each code carried by a foreign error type with GRPCStatus(), a plain Go error, the two context errors as plain errors."""
+    rows = [(nm, 100 * GRPC_STATUS + i) for i, nm in enumerate(GRPC)]
+    rows += [("wrapped:" + nm, 100 * GRPC_WRAPPED + i) for i, nm in enumerate(GRPC) if i > 0]
+    rows += [("foreign:" + nm, 100 * GRPC_FOREIGN + i) for i, nm in enumerate(GRPC)]
+    rows += [("plain", 100 * GRPC_PLAIN), ("context.Canceled", 100 * GRPC_CTX_CANCELED),
+             ("context.DeadlineExceeded", 100 * GRPC_CTX_DEADLINE)]
+    return rows
+
+
 def integ_kinds(ctx):
     ks = []
     codes = HTTP_QUICK if ctx.quick else range(100, 600)
     ks += [kd("http", str(c), c) for c in codes] + [kd("http", "implicit", 200)]
+    # api/httpc: 1xx are interim responses the Go client never hands to the caller
+    ks += [kd("httpc", str(c), c) for c in (HTTPC_QUICK if ctx.quick else range(200, 600))] + [kd("httpc", "refused", 0)]
     for api in ("grpc_codes", "grpc_client", "grpc_unary", "grpc_stream"):
-        ks += [kd(api, nm, i) for i, nm in enumerate(GRPC)]
+        ks += [kd(api, nm, n) for nm, n in grpc_rows()]
     for op in SQL_OPS:
         for fl in SQL_FLAVOURS:
             ks += [kd(op + fl, oc) for oc in SQL_OUTCOMES]
@@ -92,9 +136,10 @@ def integ_kinds(ctx):
 
 
 def gen(ctx, name, names='{"a"}', reg='{"a"}', maxsteps=3, ns="{1,6,20}", ds="{1,3,4,156,157,159,160}", rots="{0}",
-        parns="{}", coins="{TRUE,FALSE}", advadv=False, dis=False, integ="{}", simulate=None, depth=None, timeout=1500):
+        parns="{}", coins="{TRUE,FALSE}", advadv=False, dis=False, integ="{}", simulate=None, depth=None, timeout=1500,
+        succ="CoreKindsSucc", fail="CoreKindsFail"):
     K = dict(REAL, Names=names, RegNames=reg, MaxSteps=maxsteps, Ns=ns, Ds=ds, Rots=rots, ParNs=parns,
-             SuccSeq="CoreKindsSucc", FailSeq="CoreKindsFail", Coins=coins, AdvAdv=advadv, WithDisable=dis, IntegKinds=integ)
+             GrpcUnwraps=grpc_unwraps(), SuccSeq=succ, FailSeq=fail, Coins=coins, AdvAdv=advadv, WithDisable=dis, IntegKinds=integ)
     cfg = core.render_cfg(spec="GSpec", constants=K, invariants=["Emit"])
     r = ctx.tlc("BreakerGen", cfg, constants=K, name=name, simulate=simulate, depth=depth, timeout=timeout,
                 workers=(1 if simulate else 6), heap="6g")
@@ -102,11 +147,13 @@ def gen(ctx, name, names='{"a"}', reg='{"a"}', maxsteps=3, ns="{1,6,20}", ds="{1
 
 
 def mc(ctx):
-    K = dict(Names='{"a","b"}', RegNames='{"a"}', Size=3, Q=2, K2=3, Prot=1)
-    kinds = ['Kd("do","ok",0)', 'Kd("do","panic",0)', 'Kd("doacc","acc",0)', 'Kd("dofb","err",0)', 'Kd("allow","reject",0)',
-             'Kd("http","499",499)', 'Kd("grpc_unary","Internal",13)', 'Kd("sql_exec","norows",0)']
+    K = dict(Names='{"a","b"}', RegNames='{"a"}', Size=3, Q=2, K2=3, Prot=1, GrpcUnwraps=grpc_unwraps())
+    # doacc ok 6: a predicate that rejects nil (failure although the error is nil); grpc_unary plain: a business error
+    kinds = ['Kd("do","ok",0)', 'Kd("do","panic",0)', 'Kd("doacc","acc",3)', 'Kd("dofb","err",0)', 'Kd("allow","reject",0)',
+             'Kd("doacc","ok",6)', 'Kd("http","499",499)', 'Kd("grpc_unary","Internal",13)', 'Kd("grpc_unary","plain",200)',
+             'Kd("sql_exec","norows",0)']
     if not ctx.quick:
-        kinds += ['Kd("dofbacc","acc",0)', 'Kd("http","500",500)', 'Kd("redis","other",0)']
+        kinds += ['Kd("dofbacc","acc",3)', 'Kd("http","500",500)', 'Kd("redis","other",0)']
     K["Kinds"] = "{" + ", ".join(kinds) + "}"
     props = ["RejectOnlyOnExcess", "AgedOut", "KeepsFailing", "RejectedRunsNothing", "AdmittedRecordsOne",
              "BenignNeverTowardsOpen", "NopNeverRejects"]
@@ -161,12 +208,47 @@ def record_and_validate(ctx, binp, label, rounds, gomaxprocs, shard):
         ctx.samples.append([json.loads(x) for x in open(path).read().splitlines()[:16]])
 
 
-def replay_chunks(ctx, drv, binp, cases, label, chunk=30000, shards=12):
+def replay_chunks(ctx, drv, binp, cases, label, chunk=30000, shards=8):
     pkg, _, _, run = DRIVERS[drv]
     for i in range(0, len(cases), chunk):
         lab = label if len(cases) <= chunk else "%s.%d" % (label, i // chunk)
         path, _ = ctx.write_cases(lab + ".ndjson", cases[i:i + chunk])
-        ctx.replay(pkg, overlay(drv), run, path, label=lab, shards=min(shards, max(1, len(cases[i:i + chunk]) // 20)), binp=binp)
+        cnt, _ = ctx.replay(pkg, overlay(drv), run, path, label=lab, shards=min(shards, max(1, len(cases[i:i + chunk]) // 20)), binp=binp)
+        for k, v in cnt.items():
+            if k.startswith("kind."):
+                KIND_COUNTS[k[5:]] = KIND_COUNTS.get(k[5:], 0) + v
+
+
+KIND_COUNTS = {}   # "api.oc.n" -> calls of that kind executed sequentially on the real code (reported by the drivers)
+
+
+def vacuity(ctx, ks):
+    """Every call kind the check claims to exercise was really executed: all 64 (predicate, result) kinds of the two
+    predicate-taking forms, the kinds without a predicate, every row of the integration table.  Only evaluated when no
+    disagreement was found (a harness guard must never hide a verdict)."""
+    if ctx.disagreements:
+        return
+    want = ["%s.%s.%d" % (api, oc, n) for api in ("doacc", "dofbacc") for oc in ("ok", "acc", "err", "panic") for n in range(8)]
+    want += ["%s.%s.0" % (api, oc) for api in ("do", "dofb") for oc in ("ok", "acc", "err", "panic")]
+    want += ["allow.accept.0", "allow.reject.0"]
+    for k in ks:
+        m = re.match(r'Kd\("([^"]*)","([^"]*)",(\d+)\)$', k)
+        want.append("%s.%s.%s" % m.groups())
+    missing = [w for w in want if KIND_COUNTS.get(w, 0) == 0]
+    if missing:
+        raise core.Infra("vacuous replay: %d call kinds were never executed, e.g. %s" % (len(missing), missing[:8]))
+    ctx.notes["call_kinds_executed"] = len(want)
+
+
+def settle(ctx, fut):
+    """Result of a background job; its harness problem must not hide a disagreement found meanwhile."""
+    try:
+        return fut.result()
+    except core.Infra as e:
+        if ctx.disagreements:
+            core.log("background job failed after a disagreement was found (ignored): %s" % str(e)[:300])
+            return None
+        raise
 
 
 def first_api(case):
@@ -181,33 +263,49 @@ def run(ctx):
         "outcomes not listed as benign by the statement (HTTP >= 500, the five gRPC codes, other sql/redis errors) are "
         "expected to count as failures (otherwise 'one that keeps failing is cut off' could not hold for the integration)",
     ]
+    KIND_COUNTS.clear()
+    # the quick tier has to fit in about two minutes: the driver builds run beside the model checking, the
+    # single-worker simulations beside the exhaustive generation (go builds one after the other: ctx.go_build
+    # numbers its overlay files)
+    pool = ThreadPoolExecutor(3)
+    fbins = pool.submit(lambda: {d: ctx.go_build(DRIVERS[d][0], overlay(d), name="c01" + d) for d in DRIVERS})
     mc(ctx)
-    bins = {d: ctx.go_build(DRIVERS[d][0], overlay(d), name="c01" + d) for d in DRIVERS}
+    bins = settle(ctx, fbins)
 
     # ---------------------------------------------------------------- core: exhaustive
     ctx.exhaustive = True
+    # gP: the acceptable-predicate family - every (predicate, result) of DoWithAcceptable / DoWithFallbackAcceptable
+    # (and their registry forms) meets a closed window, a rejectable window with a lenient and with an adversarial coin
+    pred = dict(succ="PredKindsSucc", fail="PredKindsFail")
     if ctx.quick:
         plans = [("gA", dict(maxsteps=4, ns="{1,6,20}", ds="{1,3,157,159,160}")),
-                 ("gB", dict(names='{"a","p"}', maxsteps=3, ns="{2,7}", ds="{3,160}", parns="{8}", dis=True))]
+                 ("gB", dict(names='{"a","p"}', maxsteps=3, ns="{2,7}", ds="{3,160}", parns="{8}", dis=True)),
+                 ("gP", dict(pred, maxsteps=2, ns="{1,8,20}", ds="{160}", rots="{0,6,12,18,24,30,36}"))]
         sims = [("sA", dict(names='{"a","p"}', maxsteps=10, ns="{1,2,5,6,7,13,20}", ds="{1,2,3,4,39,80,156,157,158,159,160,161,400}",
                             parns="{8}", dis=True, advadv=True, rots="{0,3,6}"), 250, 12)]
     else:
         plans = [("gA", dict(maxsteps=4, ns="{1,5,6,7,20}", ds="{1,3,4,156,157,159,160}")),
                  ("gA5", dict(maxsteps=5, ns="{6,13}", ds="{3,157,160}")),
                  ("gB", dict(names='{"a","p"}', maxsteps=3, ns="{1,7}", ds="{3,159,160}", parns="{8}", dis=True, rots="{0,4}")),
-                 ("gK", dict(maxsteps=2, ns="{1,9,20}", ds="{160}", rots="0..8"))]
+                 ("gK", dict(maxsteps=2, ns="{1,9,20}", ds="{160}", rots="{0,5,9,14,18,23,27,32,36,41}")),
+                 ("gP", dict(pred, maxsteps=2, ns="{1,2,8,20}", ds="{3,160}", rots="{0,3,6,9,12,15,18,21,24,27,30,33,36,39}")),
+                 ("gP3", dict(pred, names='{"a","p"}', maxsteps=3, ns="{7}", ds="{160}", rots="{0,14,28}", dis=True))]
         sims = [("sA", dict(names='{"a","p"}', maxsteps=14, ns="{1,2,5,6,7,13,20}", ds="{1,2,3,4,39,80,156,157,158,159,160,161,400}",
                             parns="{8,40}", dis=True, advadv=True, rots="{0,3,6}"), 800, 16),
                 ("sB", dict(names='{"a","b","p"}', reg='{"a","b"}', maxsteps=10, ns="{1,6,20,40}", ds="{1,3,120,157,159,160}",
                             parns="{16}", dis=True, advadv=True, rots="{0,4}"), 250, 12)]
+    fsims = [(name, pool.submit(gen, ctx, name, simulate=num, depth=depth, **kw)) for name, kw, num, depth in sims]
     for name, kw in plans:
         cases = gen(ctx, name, **kw)
         ctx.samples += core.sample_of(cases, 1)
         replay_chunks(ctx, "core", bins["core"], cases, name)
-    for name, kw, num, depth in sims:
-        cases = gen(ctx, name, simulate=num, depth=depth, **kw)
+    for name, fut in fsims:
+        cases = settle(ctx, fut)
+        if cases is None:
+            continue
         ctx.samples += core.sample_of(cases, 1)
         replay_chunks(ctx, "core", bins["core"], cases, name)
+    pool.shutdown()
 
     # ---------------------------------------------------------------- concurrency: code -> spec trace validation
     # (several goroutines on one breaker, seeded coin; TLC places the window reads and the outcome marks)
@@ -236,6 +334,7 @@ def run(ctx):
     for d, cs in sorted(by.items()):
         ctx.samples += core.sample_of(cs, 1)[:1] if d in ("http", "sql") else []
         replay_chunks(ctx, d, bins[d], cs, "int-" + d, shards=(4 if len(cs) > 100 else 1))
+    vacuity(ctx, ks)
 
 
 def replay(ctx, rp):
